@@ -133,7 +133,8 @@ Definition has_dependants (e : engine) (k : N) : bool :=
    [fixed = false] is the pinned upstream code: a key that is not a unary channel (so every virtual
    channel) is skipped.  [fixed = true] (tree after fix F9) removes virtual channels here, as
    DeleteChannel does. Throughout this file [fixed] selects between the pinned upstream tree and
-   /repo after the two fix: commits of this property (F9 here, F16 in create). *)
+   /repo after the fix: commits of this property (F9 here, F40 in create, F44 in
+   retrieveExistingAndAssignKeys, F45 in rename). *)
 Fixpoint ts_del_pass1 (fixed : bool) (e : engine) (keys : list N) (idxs : list N) : engine * list N :=
   match keys with
   | [] => (e, idxs)
@@ -257,23 +258,28 @@ Fixpoint assign_keys (orig : N) (chs : list chan) (created : list chan) : list c
         let c2 := if c_isidx c then set_lidx c (c_lkey c) else c in
         let '(r', cr) := assign_keys orig r created in (c2 :: r', cr)
   end.
-Fixpoint apply_existing (names : list string) (existing : list (N * chan)) (chs : list chan) (inc : N)
-  : list chan * N :=
+(* [fixed] (fix F44): the number of keys to reserve is decremented once per replaced request
+   entry; the pinned upstream code decremented once per existing channel of that name *)
+Fixpoint apply_existing (fixed : bool) (names : list string) (existing : list (N * chan)) (chs : list chan)
+         (inc : N) (replaced : list nat) : list chan * N :=
   match existing with
   | [] => (chs, inc)
   | (_, e) :: r =>
       match index_where (name_eqb (c_name e)) names with
-      | Some i => apply_existing names r (<[i := e]> chs) (if inc =? 0 then 0 else inc - 1)
-      | None => apply_existing names r chs inc
+      | Some i =>
+          if fixed && bool_decide (i ∈ replaced)
+          then apply_existing fixed names r (<[i := e]> chs) inc replaced
+          else apply_existing fixed names r (<[i := e]> chs) (if inc =? 0 then 0 else inc - 1) (i :: replaced)
+      | None => apply_existing fixed names r chs inc replaced
       end
   end.
 (* returns (error, counter', channels', toCreate, ambiguous) *)
-Definition retrieve_assign (t : table) (ctr : N) (chs : list chan) (retr : bool)
+Definition retrieve_assign (fixed : bool) (t : table) (ctr : N) (chs : list chan) (retr : bool)
   : err * N * list chan * list chan * bool :=
   let names := c_name <$> chs in
   let '(chs1, inc, amb) :=
     if retr then let '(ex, amb) := lookup_names t names in
-                 let '(c1, i1) := apply_existing names ex chs (N.of_nat (length chs)) in (c1, i1, amb)
+                 let '(c1, i1) := apply_existing fixed names ex chs (N.of_nat (length chs)) [] in (c1, i1, amb)
     else (chs, N.of_nat (length chs), false) in
   match ctr_add ctr inc with
   | None => (ECounterOverflow, ctr, chs1, [], amb)
@@ -322,7 +328,7 @@ Definition create_gateway (fixed : bool) (host : N) (s : st) (chs : list chan) (
   if negb (is_ok er1) then (s1, er1, []) else
   if negb (names_required chs1) then (s1, ENameRequired, []) else
   let '(er2, ctr', chs2, created, amb) :=
-      retrieve_assign (s_tab s1) (default 0 (s_ctr s1 !! host)) chs1 (o_retr o) in
+      retrieve_assign fixed (s_tab s1) (default 0 (s_ctr s1 !! host)) chs1 (o_retr o) in
   let s2 := upd_amb (St (s_tab s1) (s_eng s1) (<[host := ctr']> (s_ctr s1)) (s_free s1) (s_amb s1)) amb in
   if negb (is_ok er2) then (s2, er2, []) else
   let '(e', er3) := ts_create (eng_of s2 host) ((fun c => (chan_key c, to_echan c)) <$> created) in
@@ -356,7 +362,7 @@ Definition create_free (fixed : bool) (host : N) (s : st) (chs : list chan) (o :
   let existing_calc (c : chan) := negb (c_lkey c =? 0) && needs_link c in
   let need_idx := indices_where existing_calc chs1 0 in
   let chs1b := chs1 ++ (auto_index <$> filter existing_calc chs1) in
-  let '(er2, ctr', chs2, created, amb) := retrieve_assign (s_tab s1) (s_free s1) chs1b (o_retr o) in
+  let '(er2, ctr', chs2, created, amb) := retrieve_assign fixed (s_tab s1) (s_free s1) chs1b (o_retr o) in
   let s2 := upd_amb (St (s_tab s1) (s_eng s1) (s_ctr s1) ctr' (s_amb s1)) amb in
   if negb (is_ok er2) then (s2, er2, []) else
   (* link new calculated channels to their index, in toCreate ... *)
@@ -447,10 +453,14 @@ Section create.
     match normalise host chs0 with
     | None => (s, (ECalcIndex, []))
     | Some chs1 =>
-        (* [fixed]: a request forwarded by another node already carries the index (fix F16);
+        (* [fixed]: a request forwarded by another node already carries the index (fix F40);
            the pinned upstream code appended a second one *)
         let chs := chs1 ++ (auto_index <$> filter (fun c => is_calc c && (c_lkey c =? 0) &&
                                                             negb (fixed && has_auto_index chs1 c)) chs1) in
+        (* the same name twice in the extended list (only possible through a generated index name
+           or with validation off): the handlers of different nodes look names up in replicas that
+           may or may not have received each other's writes yet *)
+        let s := upd_amb s (first_dup [] (c_name <$> chs) && (validate || o_retr o || o_over o)) in
         let peers := peers_of host (c_lease <$> chs) in
         let '(s1, er1, out1) := create_peers s peers chs o [] in
         (* several peers and a failure: Go iterates a map, the set of peers served is arbitrary *)
@@ -537,21 +547,35 @@ Definition rename_gateway (host : N) (s : st) (keys : list N) (names : list stri
   (upd_eng s1 host e', er2).
 
 Section rename.
-  Context (validate : bool).
+  Context (fixed validate : bool).
   Definition rename_checks (s : st) (keys : list N) (names : list string) : err * bool :=
     if negb (length keys =? length names)%nat then (ELenMismatch, false) else
     if validate then validate_names (s_tab s) keys names false else (EOk, false).
 
-  (* renameHandler on a peer (tx) *)
+  (* renameFreeVirtual: metadata only *)
+  Definition rename_free (s : st) (free : list (N * string)) : st * err :=
+    match free with
+    | [] => (s, EOk)
+    | _ => let '(t', er) := tab_rename (s_tab s) (fst <$> free) (snd <$> free) in
+           (if is_ok er then upd_tab s t' else s, er)
+    end.
+
+  (* renameHandler on node p (tx): s.rename there; the entries are leased to p or, on the
+     bootstrapper, free *)
   Definition rename_remote (p : N) (s : st) (kn : list (N * string)) : st * err :=
     if negb (is_node s p) then (s, ENoNode) else
     let keys := fst <$> kn in let names := snd <$> kn in
     let '(er0, amb) := rename_checks s keys names in
     let s := upd_amb s amb in
     if negb (is_ok er0) then (s, er0) else
-    match kn with
-    | [] => (s, EOk)
-    | _ => let '(s', er) := rename_gateway p s keys names in (rollback s s' er, er)
+    let free := filter (fun x => leaseholder x.1 =? node_free) kn in
+    let own := filter (fun x => leaseholder x.1 =? p) kn in
+    let '(s1, er1) := if p =? node_boot then rename_free s free
+                      else match free with [] => (s, EOk) | _ => (s, EUnreachable) end in
+    if negb (is_ok er1) then (rollback s s1 er1, er1) else
+    match own with
+    | [] => (s1, EOk)
+    | _ => let '(s2, er2) := rename_gateway p s1 (fst <$> own) (snd <$> own) in (rollback s s2 er2, er2)
     end.
 
   Fixpoint rename_peers (s : st) (peers : list N) (kn : list (N * string)) : st * err :=
@@ -572,11 +596,14 @@ Section rename.
     let s1 := upd_amb s1 (negb (is_ok er1) && (2 <=? length peers)%nat) in
     if negb (is_ok er1) then (s1, (er1, [])) else
     let free := filter (fun x => leaseholder x.1 =? node_free) kn in
+    (* [fixed] (fix F45): free renames are executed by the bootstrapper's handler; the pinned
+       upstream code wrote from the gateway (and left the bootstrapper's name index stale, which
+       this model does not reproduce) *)
     let '(s2, er2) :=
       match free with
       | [] => (s1, EOk)
-      | _ => let '(t', er) := tab_rename (s_tab s1) (fst <$> free) (snd <$> free) in
-             (if is_ok er then upd_tab s1 t' else s1, er)
+      | _ => if fixed && negb (host =? node_boot) then rename_remote node_boot s1 free
+             else rename_free s1 free
       end in
     if negb (is_ok er2) then (s2, (er2, [])) else
     let gw := filter (fun x => leaseholder x.1 =? host) kn in
@@ -598,7 +625,7 @@ Inductive op :=
 Definition step (fixed validate : bool) (s : st) (o : op) : st * res :=
   match o with
   | Create gw chs retr over => create fixed validate gw s chs (COpts retr over)
-  | Rename gw keys names => rename_keys validate gw s keys names
+  | Rename gw keys names => rename_keys fixed validate gw s keys names
   | Delete gw keys => delete_keys fixed gw s keys
   | DeleteByName gw names => delete_by_name fixed gw s names
   | Restart _ => (s, (EOk, []))
